@@ -22,9 +22,47 @@ import (
 type C16Case struct {
 	RTCase
 	Fracs []int `json:"fracs"` // per-mille positions used when the stream is too long to cut everywhere
+	// Repeat > 1: the items of the first non-empty stream step of every run are repeated this many
+	// times before encoding, so that the stream spans several 64 KiB buffers of the readers (kept as
+	// a factor so that replay files stay small)
+	Repeat int `json:"repeat,omitempty"`
+	// OnlyCuts (replay files of findings): cut the binary stream at exactly these positions
+	OnlyCuts []int `json:"only_cuts,omitempty"`
 }
 
-const c16Rule = "valid reference-encoded streams (binary and NDJSON) of generated packages x cut positions: every prefix length when the stream has at most 400 bytes after the header plus 8 positions inside the header; otherwise positions within 3 bytes of every value start, of every multiple of 65536 and 120 generated positions. Each prefix is read by the generated reader (Python; C++ built with AddressSanitizer and UBSan) copying into a generated NDJSON writer. oracle: binary - every strict prefix must end in an error; NDJSON - an error unless the prefix is itself a complete stream under the documented grammar; the values delivered before the error are exactly a prefix of the original values; no sanitizer report, no crash, no hang. non-trivial = the cut lies after the header (inside a value, a length-prefixed container or a stream block); distinct = (model, values, cut position)"
+// expandRuns applies Repeat (a target size in bytes for the binary encoding of the repeated step).
+func (c C16Case) expandRuns(env *model.Env, pkg *model.Package) []RTRun {
+	if c.Repeat <= 1 {
+		return c.Runs
+	}
+	var out []RTRun
+	for _, r := range c.Runs {
+		nr := RTRun{Proto: r.Proto, Steps: append([]value.StepValues{}, r.Steps...)}
+		proto := pkg.Find(r.Proto)
+		for i, st := range nr.Steps {
+			if st.Stream && len(st.Items) > 0 {
+				w := &ref.Writer{}
+				for _, it := range st.Items {
+					ref.EncodeValue(w, env, proto.Fields[i].Type.Elem, it)
+				}
+				k := c.Repeat/(len(w.Buf)+1) + 1
+				if len(st.Items)*k > 15000 {
+					k = 15000 / len(st.Items)
+				}
+				var items []*value.Value
+				for j := 0; j < k; j++ {
+					items = append(items, st.Items...)
+				}
+				nr.Steps[i] = value.StepValues{Stream: true, Items: items}
+				break
+			}
+		}
+		out = append(out, nr)
+	}
+	return out
+}
+
+const c16Rule = "valid reference-encoded streams (binary and NDJSON) of generated packages x cut positions: every prefix length when the stream has at most 400 bytes after the header plus 8 positions inside the header; otherwise positions within 3 bytes of every value start (of a sample of them and of all those near a buffer boundary when there are more than 400), within 12 bytes of every multiple of 65536 and 120 generated positions; in a third of the cases (binary only) a stream step's items are repeated until its encoding exceeds 66-140 kB, so that the stream spans several 64 KiB reader buffers. Each prefix is read by the generated reader (Python; C++ built with AddressSanitizer and UBSan) copying into a generated NDJSON writer. oracle: binary - every strict prefix must end in an error; NDJSON - an error unless the prefix is itself a complete stream under the documented grammar; the values delivered before the error are exactly a prefix of the original values; no sanitizer report, no crash, no hang. non-trivial = the cut lies after the header (inside a value, a length-prefixed container or a stream block); distinct = (model, values, cut position)"
 
 // flatten lists (step index, value) in the order values appear in a stream.
 type flatVal struct {
@@ -148,7 +186,18 @@ func cutPositions(total, headerLen int, starts []int, fracs []int) []int {
 			add(p)
 		}
 	} else {
-		for _, s := range starts {
+		thin := 1
+		if len(starts) > 120 {
+			thin = len(starts) / 40 // long streams: every thin-th value start, and all those near a buffer boundary
+			if len(fracs) > 30 {
+				fracs = fracs[:30]
+			}
+		}
+		for i, s := range starts {
+			near := s%65536 < 48 || s%65536 > 65536-48
+			if i%thin != 0 && !near {
+				continue
+			}
 			for d := -3; d <= 3; d++ {
 				add(s + d)
 			}
@@ -200,11 +249,14 @@ func checkC16(c C16Case) *Fail {
 			rec.Skip("cpp-does-not-build")
 		}
 	}
-	for ri, run := range c.Runs {
+	for ri, run := range c.expandRuns(b.Env, b.Pkg) {
 		proto := b.Pkg.Find(run.Proto)
 		schema := b.Schemas[run.Proto]
 		flat := flatten(proto, run.Steps)
 		for _, fmtName := range []string{"binary", "ndjson"} {
+			if c.Repeat > 1 && fmtName == "ndjson" {
+				continue // long streams are about the 64 KiB buffers of the binary readers
+			}
 			var full []byte
 			var starts []int
 			headerLen := 0
@@ -224,6 +276,17 @@ func checkC16(c C16Case) *Fail {
 				}
 			}
 			cuts := cutPositions(len(full), headerLen, starts, c.Fracs)
+			if len(c.OnlyCuts) > 0 {
+				if fmtName != "binary" {
+					continue
+				}
+				cuts = nil
+				for _, p := range c.OnlyCuts {
+					if p < len(full) {
+						cuts = append(cuts, p)
+					}
+				}
+			}
 			for _, lang := range langs {
 				if !usable[lang] {
 					continue
@@ -256,6 +319,9 @@ func checkC16(c C16Case) *Fail {
 						return failf("c16", "%d values delivered but only %d were written\n%s", len(lines), len(flat), ctx())
 					}
 					for li, l := range lines {
+						if c.Repeat > 1 && li >= 5 && li < len(lines)-60 {
+							continue // long streams: the first values and the ones delivered last are compared
+						}
 						fv := flat[li]
 						var obj map[string]any
 						dec := json.NewDecoder(strings.NewReader(l))
@@ -309,6 +375,9 @@ func TestC16(t *testing.T) {
 		cfg.MaxSteps = 4
 		c := C16Case{RTCase: genRTCase(rt, &cfg, 1, valueOpts(value.GenOpts{Budget: 25, FiniteFloats: true, Big: true}, true), 5)}
 		c.Fracs = rapid.SliceOfN(rapid.IntRange(0, 999), 120, 120).Draw(rt, "fracs")
+		if rapid.IntRange(0, 2).Draw(rt, "long") == 0 {
+			c.Repeat = rapid.SampledFrom([]int{66000, 70000, 140000}).Draw(rt, "repeat")
+		}
 		rec.Sample(map[string]any{"model": core.Trunc(modelText(c.Pkg), 400)})
 		report(rt, rec, checkC16(c), c)
 	})
